@@ -23,6 +23,7 @@ SUBS = [
     dict(name="s3query", quick=dict(cases=17000, shards=4), thorough=dict(cases=170000, shards=4)),
     dict(name="svc", quick=dict(cases=17000, shards=4), thorough=dict(cases=170000, shards=4)),
     dict(name="dynamodb", quick=dict(cases=17000, shards=4), thorough=dict(cases=170000, shards=4)),
+    dict(name="fresh", fork=True, quick=dict(cases=1500, shards=2), thorough=dict(cases=20000, shards=4)),
 ]
 
 
